@@ -49,12 +49,12 @@ Say(ok, cls, what) == IF ok THEN TRUE ELSE Rej(cls, what)
 
 \* ---- a silk_decode_frame call
 Tags(e, pre, post, bg) ==
-  (IF e.dec = 1 THEN {<<"good", e.sig>>} ELSE {<<"lost", IF pre.lc = 0 THEN 0 ELSE 1, pre.ps>>})
-  \cup (IF e.lf = FLAG_LBRR THEN {<<"lbrr", e.lb>>} ELSE {})
+  (IF e.dec = 1 THEN {ToString(<<"good", e.sig>>)} ELSE {ToString(<<"lost", IF pre.lc = 0 THEN 0 ELSE 1, pre.ps>>)})
+  \cup (IF e.lf = FLAG_LBRR THEN {ToString(<<"lbrr", e.lb>>)} ELSE {})
   \cup (IF pre.fs # pre.pfs THEN {"plc.reset"} ELSE {})
   \cup (IF pre.fs # pre.cfs THEN {"cng.reset"} ELSE {})
   \cup (IF e.dec = 1 /\ e.sig = 0 THEN {"cng.update"} ELSE {})
-  \cup (IF e.dec = 1 /\ bg.lfl = 1 THEN {<<"glue", Fade(bg, e).on>>} ELSE {})
+  \cup (IF e.dec = 1 /\ bg.lfl = 1 THEN {ToString(<<"glue", Fade(bg, e).on>>)} ELSE {})
   \cup (IF e.dec = 1 /\ bg.lfl = 1 /\ Fade(bg, e).on /\ ~GlueScaled(Fade(bg, e), e.gi[6]) THEN {"glue.break"} ELSE {})
   \cup (IF e.dec = 0 /\ post.lc >= DecayFrames THEN {"decay.judged"} ELSE {})
   \cup (IF e.dec = 0 /\ post.cg > 0 THEN {"lost.with.cng"} ELSE {})
@@ -106,7 +106,7 @@ StepSetFs(e) ==
   /\ Say(cont, "drift", <<"continuity", IF known THEN Diff(pre, x) ELSE {}>>)
   /\ Say(d = {} /\ e.r = 0 /\ lgi, "drift", <<"setfs", d, e.r, e.lgi>>)
   /\ st' = [st EXCEPT ![ch] = [has |-> TRUE, s |-> post]]
-  /\ seen' = IF d = {} THEN seen \cup {<<"setfs", pre.fs # e.fs, pre.fs = e.fs /\ pre.nb * 5 * e.fs # pre.frl>>} ELSE seen
+  /\ seen' = IF d = {} THEN seen \cup {ToString(<<"setfs", pre.fs # e.fs, pre.fs = e.fs /\ pre.nb * 5 * e.fs # pre.frl>>)} ELSE seen
   /\ UNCHANGED <<fresh, run>>
 
 StepInit(e) ==
@@ -122,7 +122,7 @@ StepInit(e) ==
 
 StepCall(e) ==
   /\ Say(e.r = e.want, "C09", <<"duration", e.c, e.r, e.want>>)
-  /\ seen' = seen \cup {<<"call", e.c>>}
+  /\ seen' = seen \cup {"call." \o e.c}
   /\ UNCHANGED <<st, fresh, run>>
 
 NoSt == [has |-> FALSE, s |-> Fresh]
